@@ -1,7 +1,7 @@
 SPECIFICATION SpecMC
 CONSTANTS
   Scenarios = {}
-  WeightSet <- Weights
+  WeightSet <- WeightsSmall
   MaxP = 2
   MaxA = 2
   NsolVals = {0, 1, 2}
